@@ -23,8 +23,8 @@ From RX.Spec Require CstFull CstFullS5.
 From RX.Proofs Require CstRangeFDefs CstRangeFS2 CstRangeG5Defs CstRangeG5.
 From RX.Spec Require CstFullS4 CstFullS6.
 From RX.Proofs Require CstRangeG6Defs CstRangeG6.
-From RX.Spec Require CstFullS10.
-From RX.Proofs Require CstRangeG10.
+From RX.Spec Require CstFullS10 CstFullS11.
+From RX.Proofs Require CstRangeG10 CstRangeG11.
 Open Scope N_scope.
 
 (* ---- Proofs/BorrowLocal.v ---- *)
@@ -214,8 +214,36 @@ Print Assumptions C18_parse_render_storage_f5.
 
 End G8.
 
-(* ---- Proofs/CstRangeG10.v ---- *)
+(* ---- Proofs/CstRangeG11.v ---- *)
 Module G9.
+Import RX.Spec.CstFull. Import RX.Spec.CstFullS4. Import RX.Spec.CstFullS6. Import RX.Spec.CstFullS11. Import RX.Proofs.CstRangeFDefs. Import RX.Proofs.CstRangeFS2. Import RX.Proofs.CstRangeG6Defs. Import RX.Proofs.CstRangeG11.
+Theorem C18_parse_render_storage_f11 :
+  forall (d : S6.doc) (opt : options) doc,
+  S11.wf_doc d = true -> (S6.has_dtd d = true -> allow_dtd opt = true) ->
+  N.of_nat (length (S6.sem d)) < nodes_limit opt ->
+  N.of_nat (length (S6.sem d)) < u32_max ->
+  N.of_nat (S6.nattrs d) < u32_max ->
+  S6.distinct_decls_le d (N.to_nat 65535) ->
+  1 + N.of_nat (S6.ns_cost d) <= u32_max ->
+  parse (S6.render d) opt = Ok doc ->
+  (* every node holds what [fshapes6] says: the names of elements, comments and PIs are slices of the
+     input -- of the literal of the declaration for what a markup value stands for --; a Text node is
+     Borrowed with the span of its only fragment (a literal or a CDATA section of the document or of a
+     markup value, or the literal value of a character-data entity), or Owned *)
+  Forall2 stored_as_6 (map nd_kind (tl (d_nodes doc))) (fshapes6 d) /\
+  (* every ordinary attribute: local name = slice of the written local part; a value with a
+     reference is Owned with the normalised value *)
+  Forall2 attr_stored_f (d_attrs doc) (fattr_spans6 d) /\
+  (* the namespace table: one entry per distinct (prefix, URI) pair in the order in which the
+     declarations are read; prefix and URI are slices of where the FIRST such declaration is written *)
+  d_ns_values doc = xml_ns :: map ns_entry_of (fns_table6 d).
+Proof. exact parse_render_storage_f11. Qed.
+Print Assumptions C18_parse_render_storage_f11.
+
+End G9.
+
+(* ---- Proofs/CstRangeG10.v ---- *)
+Module G10.
 Import RX.Spec.CstFull. Import RX.Spec.CstFullS4. Import RX.Spec.CstFullS6. Import RX.Spec.CstFullS10. Import RX.Proofs.CstRangeFDefs. Import RX.Proofs.CstRangeFS2. Import RX.Proofs.CstRangeG6Defs. Import RX.Proofs.CstRangeG10.
 Theorem C18_parse_render_storage_f10 :
   forall (d : S6.doc) (opt : options) doc,
@@ -240,10 +268,10 @@ Theorem C18_parse_render_storage_f10 :
 Proof. exact parse_render_storage_f10. Qed.
 Print Assumptions C18_parse_render_storage_f10.
 
-End G9.
+End G10.
 
 (* ---- Proofs/CstRangeG6.v ---- *)
-Module G10.
+Module G11.
 Import RX.Spec.CstFull. Import RX.Spec.CstFullS4. Import RX.Spec.CstFullS6. Import RX.Proofs.CstRangeFDefs. Import RX.Proofs.CstRangeFS2. Import RX.Proofs.CstRangeG6Defs. Import RX.Proofs.CstRangeG6.
 Theorem C18_parse_render_storage_f6 :
   forall (d : S6.doc) (opt : options) doc,
@@ -268,4 +296,4 @@ Theorem C18_parse_render_storage_f6 :
 Proof. exact parse_render_storage_f6. Qed.
 Print Assumptions C18_parse_render_storage_f6.
 
-End G10.
+End G11.
